@@ -8,5 +8,4 @@ CONSTANTS
 INIT Init
 NEXT Next
 VIEW View
-INVARIANTS LabelsInOrder NeverOutside ReversesExactly
 ACTION_CONSTRAINT DumpEdge
